@@ -49,14 +49,30 @@ def include_hash():
     return _inc_hash
 
 
-_src_hash = None
+_src_hash = {}
 
 
-def src_hash():
-    global _src_hash
-    if _src_hash is None:
-        _src_hash = _tree_hash(SRC)
-    return _src_hash
+def _dir_hash(d):
+    h = hashlib.sha256()
+    for f in sorted(os.listdir(d)):
+        p = os.path.join(d, f)
+        if os.path.isfile(p):
+            h.update(f.encode())
+            with open(p, "rb") as fh:
+                h.update(fh.read())
+    return h.hexdigest()
+
+
+def src_hash(srcp=None):
+    """Hash of the harness sources a translation unit can include: the files next to it plus the shared
+    top-level headers of /verif/src (sub-directories of other engines do not invalidate it)."""
+    d = os.path.dirname(os.path.abspath(srcp)) if srcp else SRC
+    if d not in _src_hash:
+        hh = _dir_hash(SRC)
+        if d != SRC and os.path.isdir(d):
+            hh += _dir_hash(d)
+        _src_hash[d] = hashlib.sha256(hh.encode()).hexdigest()
+    return _src_hash[d]
 
 
 def build(src, flags, tag, cxx=None, extra_inputs=(), timeout=900, use_include=True, link=True):
@@ -66,7 +82,7 @@ def build(src, flags, tag, cxx=None, extra_inputs=(), timeout=900, use_include=T
     srcp = src if os.path.isabs(src) else os.path.join(SRC, src)
     h = hashlib.sha256()
     h.update(include_hash().encode() if use_include else b"-")
-    h.update(src_hash().encode())
+    h.update(src_hash(srcp).encode())
     for e in extra_inputs:
         with open(e, "rb") as fh:
             h.update(fh.read())
@@ -157,6 +173,13 @@ class Ctx:
         self.known = [k for k in load_known() if k.get("property") == pid and k.get("status") == "known"]
         self.deadline = self.t0 + (600 if tier == "quick" else 2700)
         self.notes = []
+        # replay artefacts of earlier runs of this check are stale by definition
+        import glob
+        for f in glob.glob(os.path.join(REPLAYS, "%s-*.json" % pid)):
+            try:
+                os.unlink(f)
+            except OSError:
+                pass
 
     def time_left(self):
         return self.deadline - time.time()
